@@ -1,7 +1,7 @@
 #!/bin/sh
 # tools/confirm_seeded.sh <Cxx> <variant>  — confirm a sub-agent's seeded change in its scratch worktree:
 #   demo passes on the clean tree, fails with the patch; the repository's test-suite outcome is unchanged with the patch.
-id=$1; v=$2; wt=/tmp/mut-$id; d=$wt/_seeded/$v
+id=$1; v=$2; wt=${WT_PREFIX:-/tmp/mut-}$id; d=$wt/_seeded/$v
 PY="env PYTHONPATH=$wt /venv/bin/python"
 cd $wt || exit 3
 git checkout -q -- . ; 
